@@ -7,6 +7,8 @@ through the third-party parsers, by the fuzzing correspondence.
 -/
 import Genq.Model.Config
 import Genq.Model.Doc
+import Genq.Model.InputClosure
+import Genq.Proofs.InputClosure
 namespace Genq.Config
 
 section Lemmas
@@ -73,3 +75,45 @@ theorem C07_usedLoop_stops (frags : List Frag) (fuel : Nat) (found : List Name) 
     rw [this]
 
 end Genq.Doc
+
+namespace Genq.InputClosure
+
+/-- **C07_recursive_inputs_terminate** — the conversion of input objects is a depth-first walk that enters a type
+    into the type map before converting its fields.  For EVERY schema — `U` any finite set of input types closed
+    under "type of a field", however they refer to each other (self-reference, mutual recursion, diamonds) — and
+    every root type, the walk with fuel `|U| + 1` ends with a type map (it never needs more recursion depth than
+    there are input types), the root is in it and nothing is ever removed.  The real recursion has no fuel: this
+    is what makes it well-founded. -/
+theorem C07_recursive_inputs_terminate (S : InSchema) (U : List String) (hU : ∀ n ∈ U, ∀ f ∈ S.fieldsOf n, f ∈ U)
+    (n : String) (hn : n ∈ U) (done : List String) :
+    ∃ d, visit S (U.length + 1) n done = some d ∧ (∀ x ∈ done, x ∈ d) ∧ n ∈ d := by
+  apply visit_ok S U hU (U.length + 1) n done hn
+  have : remaining U done ≤ U.length := by unfold remaining; exact List.length_filter_le _ _
+  omega
+
+/-- what the type-map-before-fields order buys: with the entry made AFTER the fields (the natural order for
+    non-recursive types) a self-referential input type exhausts any fuel — the walk below is that variant -/
+def visitLate (S : InSchema) : Nat → String → List String → Option (List String)
+  | 0, _, _ => none
+  | fuel + 1, n, done =>
+    if done.contains n then some done
+    else ((S.fieldsOf n).foldlM (fun d f => visitLate S fuel f d) done).map (n :: ·)
+
+theorem C07_entry_before_fields_matters :
+    let S : InSchema := ⟨fun n => if n == "Filter" then ["Filter"] else []⟩
+    (∀ fuel, visitLate S fuel "Filter" [] = none) ∧ visit S 2 "Filter" [] = some ["Filter"] := by
+  refine ⟨?_, by decide⟩
+  intro fuel
+  induction fuel with
+  | zero => rfl
+  | succ f ih =>
+    simp only [visitLate, List.contains_nil, Bool.false_eq_true, if_false, beq_self_eq_true, if_true,
+      List.foldlM_cons, List.foldlM_nil, ih]
+    rfl
+
+-- non-vacuity: mutual recursion and a diamond
+example : visit ⟨fun n => if n == "A" then ["B", "C"] else if n == "B" then ["A", "D"] else if n == "C" then ["D"] else []⟩
+    5 "A" [] = some ["C", "D", "B", "A"] := by decide
+
+end Genq.InputClosure
+
